@@ -434,7 +434,8 @@ func (c *Conn) doHandshake() error {
 	} else if err == nil {
 		st := fr.Body().(*Settings)
 		if !st.IsAck() {
-			st.CopyTo(&c.serverS)
+			c.serverS.Reset()
+			st.MergeTo(&c.serverS)
 
 			// Nothing else is running yet, so these can be set directly.
 			c.streamWindow = int32(c.serverS.MaxWindowSize())
@@ -443,9 +444,10 @@ func (c *Conn) doHandshake() error {
 
 			if st.HeaderTableSize() <= defaultHeaderTableSize {
 				c.enc.SetMaxTableSize(st.HeaderTableSize())
-				c.encTableSize = st.HeaderTableSize()
-				c.encTableSizeSeen = st.HeaderTableSize()
 			}
+
+			c.encTableSize = c.enc.maxTableSize
+			c.encTableSizeSeen = c.enc.maxTableSize
 
 			// reply back
 			fr := AcquireFrameHeader()
@@ -1402,14 +1404,16 @@ func (c *Conn) writePing() error {
 }
 
 func (c *Conn) handleSettings(st *Settings) {
-	st.CopyTo(&c.serverS)
+	st.MergeTo(&c.serverS)
 
 	atomic.StoreUint32(&c.maxStreams, c.serverS.MaxConcurrentStreams())
 	atomic.StoreUint32(&c.maxFrameSize, c.serverS.MaxFrameSize())
 
 	// The encoder belongs to the write loop, so the new table size is handed
 	// over rather than applied here.
-	atomic.StoreUint32(&c.encTableSize, st.HeaderTableSize())
+	if st.Has(HeaderTableSize) {
+		atomic.StoreUint32(&c.encTableSize, st.HeaderTableSize())
+	}
 
 	// A change to SETTINGS_INITIAL_WINDOW_SIZE applies to every stream that is
 	// already open, as a delta on what it has left.
